@@ -363,7 +363,9 @@ class PathRef:
         if implicit and not (merged and merged[0][0]):
             merged.insert(0, (True, None))
         self.starts_gstar = bool(merged and merged[0][0])
-        self.ends_gstar_slash = bool(merged and merged[-1][0] and trailing)
+        # "a trailing separator on the pattern demands a directory-style path (except after a final `**`)":
+        # after a final globstar the written separator demands nothing, `a/**/` denotes what `a/**` denotes
+        self.ends_gstar_slash = False
         self.start = s = n.new()
         if absolute:
             s = self._sepplus(s)
@@ -374,10 +376,6 @@ class PathRef:
                 s = e if last else self._sepplus(e)
             elif not last:
                 # (H sep+)*
-                h = self._H(s)
-                back = self._sepplus(h)
-                n.eps[back].append(s)
-            elif trailing:
                 h = self._H(s)
                 back = self._sepplus(h)
                 n.eps[back].append(s)
